@@ -529,9 +529,21 @@ func lemmaTypedGettersAgreeOnFound(st *SlimTrie, key string) (bool, bool, bool, 
 //@   ensures !c.withLeaves ==> len(c.leafIndexes) == old(len(c.leafIndexes)) && len(c.leaves) == old(len(c.leaves)) && c.leafCnt == old(c.leafCnt)
 //@   ensures c.withLeaves ==> len(c.leafIndexes) == old(len(c.leafIndexes)) + 1 && c.leafCnt == old(c.leafCnt) + 1
 
+// RangeGet and Search: total for every wf(st) and every query (the "impossible!!" panic of getLeaf is unreachable because
+// all three ids searchID returns are leaves); RangeGet reports found exactly when searchID has an exact or a left match.
+// rg_found(st, key): whether RangeGet reports a range for key (naming clause of the deterministic, read-only RangeGet)
+//@ spec rg_found(st *SlimTrie, key string) bool
 //@ func (*SlimTrie).RangeGet
-//@   property C02 C12
-//@   assume-dep wrapper over searchID/getLeaf (bounded-checked); used only as a callee contract of SlimIndex
+//@   property C02 C10 C12
+//@   requires wf_query(st) && len(key) <= 100000000 && (st.inner.NodeTypeBM != nil ==> wf_leaves(st) && st.encoder != nil)
+//@   ensures st.inner.NodeTypeBM == nil ==> !result1
+//@   ensures !result1 ==> result0 == nil
+//@   defines result1 == rg_found(st, key)
+
+//@ func (*SlimTrie).Search
+//@   property C09 C10
+//@   requires wf_query(st) && len(key) <= 100000000 && (st.inner.NodeTypeBM != nil ==> wf_leaves(st) && st.encoder != nil)
+//@   ensures st.inner.NodeTypeBM == nil ==> result0 == nil && result1 == nil && result2 == nil
 
 // ---------------------------------------------------------------------------
 // loader (C05 C07 C20): control-flow and frame contract of Unmarshal.
@@ -634,10 +646,23 @@ func lemmaTypedGettersAgreeOnFound(st *SlimTrie, key string) (bool, bool, bool, 
 //@   after getLeftChildID#1 assert int(qr.to - qr.from) != nS(st) ==> int(qr.from) + labelidx(qr.key, int(qr.keyBitLen), int(qr.wordSize), int(i)) < int(qr.to)
 //@   after getLeftChildID#1 assert result1 == 1 ==> int(result0) + 1 < nN(st)
 //@   after getLeftChildID#1 assert int(result0) >= int(eqID) && 0 <= result0
+//@   after getNode#1 assert qr.isInner == 1 && ite(is_short(st, int(qr.ithInner)), bitof(qr.bm, 0), bitat(INW(st), qr.from)) == 1 ==> bitat(NTW(st), rank1(INW(st), qr.from) + 1) == 0
+//@   after getNode#1 assert qr.isInner == 0 ==> bitat(NTW(st), eqID) == 0
+//@   after getLeftChildID#1 assert i == l ==> labelidx(qr.key, int(qr.keyBitLen), int(qr.wordSize), int(i)) == 0
+//@   after getLeftChildID#1 assert (int(qr.to - qr.from) == nS(st)) == is_short(st, int(qr.ithInner))
+//@   after getLeftChildID#1 assert i == l ==> int(result0) == rank1(INW(st), qr.from)
+//@   after getLeftChildID#1 assert result1 == 1 && i == l ==> ite(is_short(st, int(qr.ithInner)), bitof(qr.bm, 0), bitat(INW(st), qr.from)) == 1
+//@   after getLeftChildID#1 assert result1 == 1 && i == l ==> bitat(NTW(st), rank1(INW(st), qr.from) + 1) == 0
+//@   after getLeftChildID#1 use bitat_cong(NTW(st), int(result0) + 1, rank1(INW(st), qr.from) + 1)
+//@   after getLeftChildID#1 assert result1 == 1 && i == l ==> bitat(NTW(st), int(result0) + 1) == 0
+//@   at "eqID = chID" use bitat_cong(NTW(st), int(eqID), int(leftChild) + 1)
+//@   at "eqID = chID" assert i == l ==> bitat(NTW(st), eqID) == 0
+//@   before "if eqID != -1 {" assert eqID == -1 || (bitat(NTW(st), eqID) == 0 && 0 <= eqID && int(eqID) < nN(st))
 //@   ensures st.inner.NodeTypeBM == nil ==> result0 == -1 && result1 == -1 && result2 == -1
 //@   ensures result0 == -1 || (0 <= result0 && int(result0) < nN(st))
 //@   ensures result1 == -1 || (0 <= result1 && int(result1) < nN(st))
 //@   ensures result2 == -1 || (0 <= result2 && int(result2) < nN(st))
+//@   ensures (result0 == -1 || bitat(NTW(st), result0) == 0) && (result1 == -1 || bitat(NTW(st), result1) == 0) && (result2 == -1 || bitat(NTW(st), result2) == 0)
 
 // ---------------------------------------------------------------------------
 // determinism of construction (C05): the comparator that orders the label bitmaps by usage. Entries with equal
